@@ -27,23 +27,33 @@ fn entries<T: Tier>(rh: bool, eye: [T; 3], dir: [T; 3], up: [T; 3]) -> (Vec<Entr
         let a = m4(m);
         aux.borrow_mut().push((format!("{name}/bottom-row=0,0,0,1"), vec![a[0][3], a[1][3], a[2][3], a[3][3]], vec![T::zero(), T::zero(), T::zero(), T::one()]));
     };
+    // The deprecated spellings, judged after the current ones (so that the reference of the agreement clause is a current
+    // constructor).  The inherent ones are documented with a hand (Matrix4::look_at_dir / look_at: right-handed,
+    // Matrix3::look_at: left-handed).  The trait-level `Transform::look_at` only says "use look_at_rh or look_at_lh": each
+    // implementor is judged in the hand it exhibits (the sign of the z component of the image of d) - it must be a
+    // view transform of one of the two hands, which one is not stated.
     #[allow(deprecated)]
-    let deprecated_rh: Vec<(&'static str, Matrix4<T>)> = if rh {
-        // the deprecated spellings are documented as the right-handed constructors (judged after the current ones, so that
-        // the reference of the agreement clause is a current constructor)
-        vec![("Matrix4::look_at_dir (deprecated)", Matrix4::look_at_dir(e, d, u)), ("Matrix4::look_at (deprecated)", Matrix4::look_at(e, c, u)), ("Transform<Matrix4>::look_at (deprecated)", <Matrix4<T> as Transform<Point3<T>>>::look_at(e, c, u))]
-    } else {
-        vec![]
-    };
+    let mut deprecated_rh: Vec<(&'static str, Matrix4<T>)> = if rh { vec![("Matrix4::look_at_dir (deprecated)", Matrix4::look_at_dir(e, d, u)), ("Matrix4::look_at (deprecated)", Matrix4::look_at(e, c, u))] } else { vec![] };
+    let shows_rh = |r: [[T; 3]; 3]| -> bool { (mk_m3(r) * d).z < T::zero() };
     #[allow(deprecated)]
-    if !rh {
-        // ... and Matrix3's / Decomposed's as the left-handed ones
-        let m = Matrix3::look_at(d, u);
-        let dq: Decomposed<Vector3<T>, Quaternion<T>> = Transform::look_at(e, c, u);
-        aux.borrow_mut().push(("Decomposed<Quaternion>::look_at (deprecated)/scale=1".to_string(), vec![dq.scale], vec![T::one()]));
-        let dqm = m3(Matrix3::from(dq.rot));
+    {
+        let t4 = <Matrix4<T> as Transform<Point3<T>>>::look_at(e, c, u);
+        if shows_rh(lin4(t4).0) == rh {
+            deprecated_rh.push(("Transform<Matrix4>::look_at (deprecated)", t4));
+        }
+        if !rh {
+            deprecated_lh.push(("Matrix3::look_at (deprecated)", m3(Matrix3::look_at(d, u)), None));
+        }
         let tm = m3(<Matrix3<T> as Transform<Point3<T>>>::look_at(e, c, u));
-        deprecated_lh = vec![("Matrix3::look_at (deprecated)", m3(m), None), ("Transform<Matrix3>::look_at (deprecated)", tm, None), ("Decomposed<Quaternion>::look_at (deprecated)", dqm, Some(v3(dq.disp)))];
+        if shows_rh(tm) == rh {
+            deprecated_lh.push(("Transform<Matrix3>::look_at (deprecated)", tm, None));
+        }
+        let dq: Decomposed<Vector3<T>, Quaternion<T>> = Transform::look_at(e, c, u);
+        let dqm = m3(Matrix3::from(dq.rot));
+        if shows_rh(dqm) == rh {
+            aux.borrow_mut().push(("Decomposed<Quaternion>::look_at (deprecated)/scale=1".to_string(), vec![dq.scale], vec![T::one()]));
+            deprecated_lh.push(("Decomposed<Quaternion>::look_at (deprecated)", dqm, Some(v3(dq.disp))));
+        }
     }
     if rh {
         push4("Matrix4::look_to_rh", Matrix4::look_to_rh(e, d, u));
@@ -198,9 +208,9 @@ fn frames<T: Tier>(rep: &mut Report) {
 fn grid3<T: Tier + Dom<M = Sh>>(rep: &mut Report) {
     let r: i64 = rep.pick(1, 2);
     grid3_at::<T>(rep, "grid3", r, (0, 0));
-    // long and short inputs: the squares of the lengths are representable (that is what normalising d and up needs),
-    // their fourth powers are not - the result must not depend on the order in which the constructor normalises
-    let k = if T::NAME == "F" { 35 } else { 300 };
+    // long and short inputs, inside the float domain (8.5: products of four components are still normal numbers, so that
+    // an implementation may normalise before or after it combines d and up)
+    let k = if T::NAME == "F" { 30 } else { 250 };
     for (nm, sc) in [("grid3/long", (k, k)), ("grid3/short", (-k, -k)), ("grid3/long-dir-short-up", (k, -k)), ("grid3/short-dir-long-up", (-k, k))] {
         grid3_at::<T>(rep, nm, 1, sc);
     }
